@@ -20,7 +20,7 @@ OUT = ('STATED PROMINENTLY: coredata.dat pickling, cmd_line.txt, --wipe replay, 
 MANIFEST = dict(
     text='Bounded model checking of the in-memory option state machine: all command histories up to the bound with symbolic values against a last-value/default reference model. '
          'Claimed for the in-memory transitions only; persistence files, --wipe and rollback are outside.',
-    note='Partial claim. Trusted: symx engine, z3, the reference model. Bounds: histories of <=3 (quick) / 4 (thorough) commands over 10 command kinds; a configure command is saved iff set_from_configure_command reports a change, as mconf.run_impl does.')
+    note='Partial claim. Trusted: symx engine, z3, the reference model. Bounds: histories of <=2 (quick) / 4 (thorough) commands over 11 command kinds; a configure command is saved iff set_from_configure_command reports a change, as mconf.run_impl does.')
 
 O = ME = None
 
@@ -47,13 +47,14 @@ def ob_history(n):
         lo, hi, d0 = -3, 3, 0
         st.add_project_option(pk, O.UserIntegerOption('popt', 'x', d0, min_value=lo, max_value=hi))
         st.initialize_from_top_level_project_call({}, {}, {})
+        st.add_project_option(K('sopt', subproject='sub'), O.UserStringOption('sopt', 'x', 'sdefault'))
         st.initialize_from_subproject_call('sub', {}, {}, {}, {})
         # reference model
         ref = dict(someopt='c0', aug=None, popt=0, popt_kind='int', plo=lo, phi=hi, has_popt=True, newopt=None)
         persisted = st
         for i in range(n):
             work = copy.deepcopy(persisted)       # load
-            cmd = choose(10, 'cmd%d' % i)
+            cmd = choose(11, 'cmd%d' % i)
             ok = True
             dirty = True       # option-file re-reads are always saved; configure commands save iff set_from_configure_command says something changed (mconf.run_impl)
             new = dict(ref)
@@ -115,6 +116,10 @@ def ob_history(n):
                     keep[K('newopt', subproject='')] = O.UserStringOption('newopt', 'x', 'fresh')
                     work.update_project_options(keep, '')
                     if ref['newopt'] is None: new['newopt'] = 'fresh'
+                elif cmd == 10:     # a change followed, in the same command, by a -U that has nothing to drop
+                    v = CH[choose(4, 'v%d' % i)]
+                    dirty = work.set_from_configure_command({K('someopt'): v, K('sopt', subproject='sub'): None})
+                    new['someopt'] = v
                 elif cmd == 9:      # two assignments in one command: the first changes a value, the second restates the current one
                     v = CH[choose(4, 'v%d' % i)]
                     dirty = work.set_from_configure_command({K('someopt', subproject='sub'): v, K('someopt'): ref['someopt']})
@@ -150,7 +155,7 @@ def ob_history(n):
 def obligations(tier):
     q = tier == 'quick'
     out = []
-    for n in (1, 2, 3) if q else (1, 2, 3, 4):
-        out.append(Obligation('history[%d]' % n, ob_history(n), dict(commands=n, kinds='-Dopt, -Dsub:opt, -Usub:opt, -Dpopt, re-range, remove, re-type, add, failing command, two -D in one command'),
+    for n in (1, 2) if q else (1, 2, 3, 4):
+        out.append(Obligation('history[%d]' % n, ob_history(n), dict(commands=n, kinds='-Dopt, -Dsub:opt, -Usub:opt, -Dpopt, re-range, remove, re-type, add, failing command, two -D in one command, -D plus a no-op -U in one command'),
                               labels=('ok', 'failed'), max_paths=20000000))
     return out
